@@ -200,12 +200,100 @@ def gen_codec_case(rng, cid, tier):
     return Case(cid, [ty, nh, nb, seed, sh], ops, tag="cm-codec-ty%d" % ty)
 
 
+def clear_negative_cells(img, ty):
+    """counters of the signed types are non-negative in the model: keep the sign bit of every complete 8-byte
+    payload cell clear (negative counters are outside the model; see tools/props/C13.py trusted)"""
+    if ty >= 4:
+        for off in range(16 + 7, len(img), 8):
+            img[off] &= 0x7f
+    return img
+
+
+def py_parse(img, ty, mx, nh, nb, sh):
+    """the reader's decision on an image, recomputed here: (total, cells) when accepted for THIS configuration
+    (num_hashes, num_buckets as in the case's cfg), else None"""
+    if len(img) < 16 or img[0] != 2 or img[1] != 1 or img[2] != 18:
+        return None
+    if int.from_bytes(bytes(img[8:12]), "little") != nb or img[12] != nh or int.from_bytes(bytes(img[13:15]), "little") != sh:
+        return None
+    if img[3] & 1:
+        return 0, [0] * (nh * nb)
+    n = nh * nb + 1
+    if len(img) < 16 + 8 * n:
+        return None
+    vals = [int.from_bytes(bytes(img[16 + 8 * i:24 + 8 * i]), "little") for i in range(n)]
+    if any(v > mx for v in vals) or any(v > vals[0] for v in vals[1:]):
+        return None
+    return vals[0], vals[1:]
+
+
+def valid_table(rng, nh, nb, mx, hi=1000):
+    """(total, cells) with every cell <= total <= mx (what updates and merges can produce)"""
+    cells = [rng.randint(0, min(mx, hi)) for _ in range(nh * nb)]
+    total = min(mx, rng.choice([max(cells), sum(cells), max(cells) + rng.randint(0, 5)]))
+    return total, cells
+
+
+def gen_malformed_use_case(rng, cid, tier):
+    """C14 (part C14_countmin): what deserialize returns as Ok must be usable.  Mutations aimed at the payload
+    (a counter above the total weight, total 0 with non-zero counters, counters at T::MAX, total at T::MAX) next to
+    the structural ones; every accepted value is then updated, queried, forked, merged with its fork and
+    re-serialized, with weights chosen so that the totals fit the counter type (so nothing may panic)"""
+    ty, mx = rng.choice(TYPES)
+    nh = rng.choice([1, 2, 3]); nb = rng.choice([3, 4, 5])
+    seed = 9001; sh = pyref.seed_hash(seed); seeds = row_seeds(seed, nh)
+    dom = [rng.randint(-9, 9) for _ in range(4)]
+    bk = {x: buckets(x, seeds, nb) for x in dom}
+    ops = []
+    for _ in range(8 if tier == "quick" else 24):
+        total, cells = valid_table(rng, nh, nb, mx, hi=rng.choice([3, 100, mx]))
+        b = header(nh, nb, sh) + [y for c in [total] + cells for y in c.to_bytes(8, "little")]
+        r = rng.random()
+        k = rng.randrange(nh * nb)
+        def put(i, v):          # cell i (0 = total weight)
+            b[16 + 8 * i:24 + 8 * i] = list((v & (2**64 - 1)).to_bytes(8, "little"))
+        if r < 0.2:
+            put(1 + k, rng.choice([total + 1, mx, min(mx, 2 * total + 1), mx + 1, 2**63 - 1]))
+        elif r < 0.3:
+            put(0, rng.choice([0, max(0, max(cells) - 1), 1]))
+        elif r < 0.4:
+            put(0, mx); put(1 + k, mx)
+        elif r < 0.5:
+            put(0, rng.choice([mx + 1, 2**63, 2**64 - 1]))
+        elif r < 0.6:
+            i = rng.randrange(16, len(b)); b[i] ^= 1 << rng.randrange(8)
+        elif r < 0.7:
+            b = b[:rng.randrange(len(b) + 1)]
+        elif r < 0.75:
+            b[3] = rng.choice([1, 3, 255]); b = b[:rng.choice([16, len(b)])]
+        # else: unmodified valid image
+        b = clear_negative_cells(b, ty)
+        ops.append((9, [0] + b))
+        st = py_parse(b, ty, mx, nh, nb, sh)
+        ops += [(8, [0]), (3, [0])]
+        if st is None:
+            continue
+        t = st[0]
+        x = rng.choice(dom)
+        ops += [(2, [0, x] + bk[x]), (11, [0, x] + bk[x])]
+        w = min(mx - t, rng.choice([0, 1, mx - t, (mx - t) // 2, rng.randint(0, mx - t)]))
+        t += w
+        ops += [(1, [0, x, w] + bk[x]), (11, [0, x] + bk[x]), (10, [0, 1]), (3, [1])]
+        if 2 * t <= mx:
+            ops += [(4, [0, 1]), (8, [0]), (11, [0, x] + bk[x])]; t *= 2
+        if ty < 4:
+            ops += [rng.choice([(5, [0]), (6, [0, f64bits(rng.choice([1.0, 0.5]))])]), (3, [0])]
+        ops.append((7, [0]))
+    return Case(cid, [ty, nh, nb, seed, sh], ops, tag="cm-malformed-use")
+
+
 def gen_malformed_case(rng, cid, tier):
     """C14 focus: structure-aware mutations of valid images + random bytes through deserialize, then use the value"""
     ty, mx = rng.choice(TYPES)
     nh = rng.choice([1, 2, 3]); nb = rng.choice([3, 4, 5, 8])
     seed = 9001; sh = pyref.seed_hash(seed); seeds = row_seeds(seed, nh)
-    cells = [rng.randint(0, min(mx, 1000)) for _ in range(nh * nb + 1)]
+    total, tab = valid_table(rng, nh, nb, mx)
+    cells = [total] + tab
     img = header(nh, nb, sh) + [b for c in cells for b in c.to_bytes(8, "little")]
     ops = []
     for _ in range(12 if tier == "quick" else 40):
@@ -227,6 +315,7 @@ def gen_malformed_case(rng, cid, tier):
             b = b + [rng.randrange(256) for _ in range(rng.randrange(20))]
         else:
             b = [rng.randrange(256) for _ in range(rng.randrange(40))]
+        b = clear_negative_cells(b, ty)
         ops.append((9, [0] + b))
         x = rng.randint(-5, 5)
         # a value returned as Ok must be usable: query, update, merge with itself-clone, re-serialize
@@ -414,6 +503,8 @@ def gen(rng, tier, n=None, focus=None):
         return [gen_foreign_case(rng, i, tier) for i in range(n)]
     if focus == "extremes":
         return [gen_extreme_case(rng, i, tier) for i in range(n)]
+    if focus == "malformed_use":
+        return [gen_malformed_use_case(rng, i, tier) for i in range(n)]
     if focus == "malformed":
         return [gen_malformed_case(rng, i, tier) for i in range(n)] + [gen_bigalloc_case(rng, n + i, tier) for i in range(6)]
     return [gen_case(rng, i, tier, focus) for i in range(n)]
